@@ -9,7 +9,7 @@ CLAIMED = {
    text="Machine-checked theorems (uniqueness, in-range, idempotence, forward/reverse agreement) over executable Lean models of the pool implementations for all histories and geometries; model tied to /repo by executing generated operation sequences on the real code and replaying them on the model. The whole PPPoE server around its IPPool is a further component (pppoesrv, driving the real receiveLoop): Spec.C16PppoeWhole.sessions_hold_distinct_addresses, address_is_pool_entry and held_address_not_free hold for every frame history, and the pool-view clauses of its monitor are proved silent on the model.",
    note="Trusted: Lean kernel + propext/Classical.choice/Quot.sound; the hand-written models (validated by the correspondence run); the Go harness and bngdrv; atomic-step abstraction for concurrent callers."),
  "C04": dict(design="DESIGN.md §7 C04",
-   technique="Lean 4 proof: session invariant + induction over frame sequences of the PPPoE server model, ghost authentication flag justified by a separate theorem; differential correspondence against the real frame handlers; monitor on the real session table and emitted frames",
+   technique="Lean 4 proof: session invariant + induction over frame sequences of the PPPoE server model, ghost authentication flag justified by a separate theorem; differential correspondence against the real frame handlers; monitor on the real session table and emitted frames; go/ast translator (extractguards) regenerating the frame handlers' guard table on every run with kernel-decided gate theorems (Spec.C04Guards)",
    text="Machine-checked theorems service_requires_auth, ipcp_ack_requires_auth, foreign_mac_inert and ghost_set_only_by_accepted_pap over an executable Lean model of pkg/pppoe/server.go for all frame sequences, MACs and RADIUS outcomes; model tied to /repo by driving the real handlers on an in-memory socket (verif hook) with a scripted loopback RADIUS server. The monitor run on the implementation (PppoeMon.monitorCore) is itself proved silent on every history of the model (Spec.C16PppoeWhole.monitor_silent_on_model); the PPP Authenticator (auth.go) is a second component (pppauth, Spec.C04Auth).",
    note="Trusted: Lean kernel + propext/Classical.choice/Quot.sound; the hand-written model (validated by the correspondence run); harness and bngdrv; well-formed frames only (malformed input is C09); RADIUS library."),
  "C05": dict(design="DESIGN.md §7 C05",
